@@ -10,14 +10,14 @@ from ..facts import const_bool, const_int, op_local, op_place, op_const, const_v
 DOC = {
     'explanation': 'Byte identity itself is not decidable statically (contents, hash quality). Decided is the staged-hashing plumbing that makes the final group key cover every byte: '
                    'the lengths fully hashed by the prefix stage and those hashed by the contents stage cover all lengths with one shared threshold, and the contents stage is bypassed '
-                   'only by --skip-content-hash (R1); the regrouping key is (length, hash) (R2); the suffix hash is XOR-combined with the old hash (R3); one hash is shared only between '
+                   'only by --skip-content-hash (R1); the regrouping key is (length, hash) (R2); the suffix hash is joined with the old hash in a way that identifies the pair (R3); one hash is shared only between '
                    'paths with equal (device, inode) (R4); the transformed stream is hashed without a bound derived from the raw file length (R5); a length changed by the hash function '
                    'reaches every path of the inode (R6); file_hash honours chunk.pos/chunk.len and the read loop stops only at the bound, at EOF or on error (R7).',
     'rules': {
         'C01.M': __import__('fcverif.rules.common', fromlist=['MANDATORY_TEXT']).MANDATORY_TEXT,
         'C01.R1': 'stage cover: prefix stage hashes (0, P) when len REL1 P; contents stage hashes (0, len) when len REL2 M; {REL1}+{REL2} cover all lengths and P, M are the same value; contents bypassed only under skip_content_hash',
         'C01.R2': 'rehash: GroupMap key = (file_info.len, file_hash)',
-        'C01.R3': 'group_by_suffix: result = old_hash ^ new_hash (BitXor), never the new hash alone',
+        'C01.R3': 'group_by_suffix: the result is a combination of the old (prefix) hash and the new (suffix) hash, never the new hash alone, and the combination identifies the pair - the hashes are joined (FileHash::combine), not xor-ed (xor cancels equal operands and commutes: files whose first and last block are equal would all get the key 0)',
         'C01.R4': 'hashing task: inode groups keyed by file_info.id; FileId equality is the derived one over exactly {device, inode}',
         'C01.R5': 'hash_transformed: the length bound handed to stream_hash has no data dependence on chunk.len (the raw file length)',
         'C01.R6': 'fields of FileInfo written through the &mut handed to hash_fn and read by the group key are assigned on every HashedFileInfo the task sends',
@@ -25,7 +25,7 @@ DOC = {
         'C01.R11': 'a file is identified by its whole FileId: the inode number is never read without the device (derived Eq/Ord/Hash of FileId, the cache key), except by the inode_id() accessor whose only user computes the read-ordering `location`; a run of \'paths of the same file\' keyed by the inode alone would give one hash to different files of two file systems mapped to one DiskDevice',
         'C01.R10': 'the chunks are cut from the length recorded by the scan, so the data are only those of the reported file if the length still holds: the three raw hashing stages hand the scanned length to the hasher with the chunk, and file_hash compares it with the length of the file it has open (fstat) and fails on a mismatch - a file that grew or shrank after the scan leaves the stage with a warning instead of being reported under its old length',
         'C01.R9': 'the report file (-o FILE) is created, empty, before the scan starts (main.rs: check_can_create_output_file), so the scan must not take it for one of the input files: scan_files filters out the path that equals config.output',
-        'C01.R8': 'the suffix stage, which combines hashes with XOR, never hashes the chunk the prefix stage already hashed: its pre-filter excludes files not longer than the prefix length (a comparison of file_len with a value that group_files derives from the same prefix_len it hands to the prefix and contents stages); otherwise whole-file ^ whole-file = 0 merges all files of one length',
+        'C01.R8': 'the suffix stage never hashes the chunk the prefix stage already hashed: its pre-filter excludes files not longer than the prefix length (a comparison of file_len with a value that group_files derives from the same prefix_len it hands to the prefix and contents stages); otherwise whole-file ^ whole-file = 0 merges all files of one length',
         'C01.R7': 'file_hash opens at chunk.pos and bounds by chunk.len; stream_hash feeds every buffer to the hasher; the read loop exits only at the bound, on read()==0, or with Err',
     },
     'not_decided': 'that equal hashes mean equal bytes; short reads of files that change under the scan; device classification at run time',
@@ -269,17 +269,36 @@ def r3(ctx):
     ctx.fn(hc)
     found = False
     for body in [hc] + [lib.body(p) for p in lib.closures_of(hc.path)]:
-        for c in body.calls(r'FileHash as std::ops::BitXor.*>::bitxor$'):
+        for c in body.calls(r'FileHash as std::ops::BitXor.*>::bitxor$|^file::FileHash::\w+$'):
+            if len(c.args) < 2:
+                continue
             sa, sb = backslice(body, [c.args[0]]), backslice(body, [c.args[1]])
             old_a = any(n == 'old_hash' for _, n in sa.upvars) or any(body.local_name(l) == 'old_hash' for l in sa.locals)
             new_b = 2 in sb.params or any(body.local_name(l) == 'new_hash' for l in sb.locals)
             old_b = any(n == 'old_hash' for _, n in sb.upvars) or any(body.local_name(l) == 'old_hash' for l in sb.locals)
             new_a = 2 in sa.params or any(body.local_name(l) == 'new_hash' for l in sa.locals)
-            found = (old_a and new_b) or (old_b and new_a)
+            if not ((old_a and new_b) or (old_b and new_a)):
+                continue
+            found = True
             ret = c.dest[0] == 0 or c in backslice(body, [0]).calls
-            ctx.check(found and ret, rule, body.path, c.where(), 'suffix stage returns old_hash ^ new_hash', 'the XOR does not combine the old and the new hash / is not the result')
+            ctx.check(ret, rule, body.path, c.where(), 'the suffix stage returns a combination of the old and the new hash', 'the combination of the old and the new hash is not the result')
+            # the combination identifies the PAIR (prefix hash, suffix hash): xor does not - equal operands cancel (a file whose first and last block are equal
+            # gets 0, whatever the block contains) and the operands commute (X..Y and Y..X get the same value)
+            xor = c.matches(r'BitXor.*>::bitxor$')
+            cb = lib.body(c.path) if not xor else None
+            if cb is not None:
+                xor = any(st['rv']['k'] == 'bin' and st['rv']['op'] == 'BitXor' for blk in cb.blocks for st in blk['stmts']) or bool(cb.calls(r'BitXor.*>::bitxor$'))
+                for cp_ in lib.closures_of(cb.path):
+                    xor = xor or any(st['rv']['k'] == 'bin' and st['rv']['op'] == 'BitXor' for blk in lib.body(cp_).blocks for st in blk['stmts'])
+                joins = bool(cb.calls(r'::concat$|::extend_from_slice$|::extend$|Iterator::chain$|::join$'))
+            else:
+                joins = False
+            ctx.check(not xor and (joins or cb is None and False), rule, body.path + '|pair-identified', c.where(), 'the two hashes are joined, not xor-ed: the result identifies the pair (prefix hash, suffix hash)',
+                      'the prefix hash and the suffix hash are combined with xor, which cancels and commutes: when the block read as the prefix equals the block read as the suffix (4 KiB each: the default on '
+                      'SSDs for files >= 64 KiB; files filled with one value, padded images) every such file gets the key (len, 0), and X..Y / Y..X get the same key - groups that the prefix stage had '
+                      'separated are merged again; with --skip-content-hash that is final (two classes reported as one group; with --unique / --rf-under both vanish)')
     if not found:
-        ctx.violation(rule, hc.path, hc.where(), 'the suffix stage does not XOR the new hash with the previous one: the prefix information is lost from the group key')
+        ctx.violation(rule, hc.path, hc.where(), 'the suffix stage does not combine the new hash with the previous one: the prefix information is lost from the group key')
     # the result passes through Option::map of the hash result (None stays None)
     hf = hc.calls(r'hash_file_or_log_err$')
     ctx.check(bool(hf) and any(c.matches(r'Option(::)?<.*>::map$') and hf[0] in backslice(hc, [c.args[0]]).calls for c in hc.calls()), rule, hc.path + '|none-stays-none', hc.where(), 'a failed suffix hash stays None', 'a failed suffix hash is replaced by a value')
